@@ -69,6 +69,8 @@ pub struct Opts {
     pub smart_quote: bool,
     /// value given to XDG_DATA_HOME while the Config is created
     pub user_home: PathBuf,
+    /// call the ANSI setter before the English setter (the order must not matter)
+    pub ansi_first: bool,
 }
 
 impl Opts {
@@ -88,6 +90,7 @@ impl Opts {
             ansi: false,
             smart_quote: true,
             user_home: user_home.into(),
+            ansi_first: false,
         }
     }
     pub fn fixed(layout: &str, user_home: &std::path::Path) -> Opts {
@@ -141,6 +144,9 @@ impl Cfg {
                 let d = CString::new(DATA_DIR).unwrap();
                 assert!(riti_config_set_database_dir(c, d.as_ptr()));
             }
+            if o.ansi_first {
+                riti_config_set_ansi_encoding(c, o.ansi);
+            }
             riti_config_set_suggestion_include_english(c, o.english);
             riti_config_set_phonetic_suggestion(c, o.phonetic_suggestion);
             riti_config_set_fixed_suggestion(c, o.fixed_suggestion);
@@ -150,7 +156,9 @@ impl Cfg {
             riti_config_set_fixed_old_reph(c, o.old_reph);
             riti_config_set_fixed_numpad(c, o.numpad);
             riti_config_set_fixed_old_kar_order(c, o.kar_order);
-            riti_config_set_ansi_encoding(c, o.ansi);
+            if !o.ansi_first {
+                riti_config_set_ansi_encoding(c, o.ansi);
+            }
             riti_config_set_smart_quote(c, o.smart_quote);
             Cfg(c)
         }
